@@ -3,8 +3,8 @@ import random
 from vlib import core, corr
 
 AREA = "C06"
-MODULES = ["TinsModel.Props.C06", "TinsModel.Props.C06Sessions", "TinsModel.Props.Limits.C06"]   # + the constants / limits tied to the source (translator/gen_limits.py)
-AUDIT = ["Audit/C06.lean", "Audit/C06Sessions.lean", "Audit/LimitsC06.lean"]
+MODULES = ["TinsModel.Props.C06", "TinsModel.Props.C06Sessions", "TinsModel.Props.C06Hyp", "TinsModel.Props.Limits.C06"]   # + the constants / limits tied to the source (translator/gen_limits.py)
+AUDIT = ["Audit/C06.lean", "Audit/C06Sessions.lean", "Audit/C06Hyp.lean", "Audit/LimitsC06.lean"]
 LEVEL = "proof"
 MANIFEST = dict(
     text="Lean 4 theorems over code-shaped executable models of DataTracker::process_payload/advance_sequence, "
@@ -355,6 +355,45 @@ def session_case(rng, big=False):
     return out
 
 
+# Witnesses of lean/TinsModel/Props/C06Hyp.lean: histories OUTSIDE the property's hypothesis (one hypothesis dropped each), run on the
+# real DataTracker on every run: the model must agree with the code on them and the oracle must reject them with the named clause
+# (so the `..._needed` theorems speak about what the code does, and the oracle is seen to reject something on every run).
+HYPOTHESIS_WITNESSES = [
+    ("half_window_needed", ["init 0 07", "seg 0 07 @0", "seg 2147483649 - @-2147483647"], "buffered-state"),
+    ("half_window_needed_nonempty", ["init 0 0708", "seg 0 0708 @0", "seg 2147483649 09 @-2147483647"], "buffered-state"),
+    ("segment_inside_needed", ["init 5 01", "seg 7 - @2"], "buffered-state"),
+    ("segment_agrees_needed", ["init 5 0102", "seg 5 0109 @0"], "delivered-prefix"),
+]
+
+
+def hypothesis_witnesses(chk, exe):
+    for name, ops, clause in HYPOTHESIS_WITNESSES:
+        impl, mod, spec, _ = corr.evaluate(AREA, exe, ops, ("init",))
+        if impl != mod:
+            chk.violation(f"witness {name}: model and DataTracker differ: impl {impl[-1][:200]} | model {mod[-1][:200]}",
+                          ops + ["# impl:  " + x for x in impl] + ["# model: " + x for x in mod], nofail=True,
+                          signature={"kind": "diff", "family": "witness", "clause": name})
+        elif not spec[-1].startswith("violates " + clause) or any(x.startswith("violates") for x in spec[:-1]):
+            chk.violation(f"witness {name}: the oracle no longer rejects the history with `{clause}`: {spec[-1][:200]}",
+                          ops + ["# spec:  " + x for x in spec], nofail=True,
+                          signature={"kind": "oracle", "family": "witness", "clause": name})
+        chk.cov["evaluations"] += len(ops)
+
+
+def oversize_witness(chk, exe):
+    """`oversize_segment_dropped` on the real class: an in-order segment of 2^31 + 1 bytes is discarded whole (defined behaviour,
+    no sanitizer report: `erase_in_bounds`); 2 GiB of zero pages, thorough tier only"""
+    for isn in (0, 4294967295):
+        ops = [f"init {isn}", f"bigseg {isn} 2147483649 7"]
+        impl, faults = core.run_harness_lines(exe, (), ops, ("init",))
+        want = f"r=0 seq={isn} total=0 plen=0 ph=14695981039346656037 buf="
+        if len(impl) < 2 or impl[1] != want:
+            chk.violation(f"oversize_segment_dropped does not describe DataTracker: got {impl[-1][:200]} want {want}",
+                          ops + ["# impl:  " + x for x in impl], nofail=True,
+                          signature={"kind": "diff", "family": "witness", "clause": "oversize_segment_dropped"})
+        chk.cov["evaluations"] += 2
+
+
 def classify(op, impl):
     w = op.split(" ")
     if w[0] in ("mpkt", "mpktp"):
@@ -425,6 +464,9 @@ def run(chk):
         if i % 3 == 0:
             cases.append(dup_case(rng))
     stats = __import__("collections").Counter()
+    hypothesis_witnesses(chk, exes["c06_tracker"])
+    if chk.tier == "thorough":
+        oversize_witness(chk, exes["c06_tracker"])
     for name, _, start, conv in HARNESSES:
         # the tracker sees every case; Flow and the legacy follower (real packets, slower) every second one
         step = 1 if name == "c06_tracker" else 2
